@@ -330,7 +330,7 @@ func ruleNaNSelection(w *World, r *RuleResult) {
 						if c, ok := in.(*ssa.Call); ok && w.calleeName(c) == "(*Decimal).Set" {
 							src = phiOnPath(c.Common().Args[1], p)
 						}
-						if st, ok := in.(*ssa.Store); ok && w.exprOf(f, st.Addr).String() == "&d.Form" {
+						if st, ok := in.(*ssa.Store); ok && w.exprOf(f, st.Addr).String() == "&"+w.destName(f)+".Form" {
 							if k, ok := st.Val.(*ssa.Const); ok && ci(k) == qn {
 								quieted = true
 							}
